@@ -239,6 +239,9 @@ where
             let stop_result = self.card_command(CMD12, 0);
             result?;
             stop_result?;
+            // The card may signal busy after the stop command: wait here, as
+            // the next command could be a CMD0, which does not wait.
+            self.wait_not_busy(Delay::new_read())?;
         }
         Ok(())
     }
